@@ -51,6 +51,18 @@ type AbMessage_OneString struct {
 	OneString string `protobuf:"bytes,19,opt,name=one_string,oneof"`
 }
 
+type isAbMessage_Second interface{ isAbMessage_Second() }
+
+type AbMessage_TwoInt struct {
+	TwoInt int64 `protobuf:"varint,24,opt,name=two_int,json=twoInt,oneof"`
+}
+type AbMessage_TwoString struct {
+	TwoString string `protobuf:"bytes,25,opt,name=two_string,json=twoString,oneof"`
+}
+
+func (*AbMessage_TwoInt) isAbMessage_Second()    {}
+func (*AbMessage_TwoString) isAbMessage_Second() {}
+
 func (*AbMessage_OneInt) isAbMessage_Union()    {}
 func (*AbMessage_OneChild) isAbMessage_Union()  {}
 func (*AbMessage_OneString) isAbMessage_Union() {}
@@ -77,6 +89,7 @@ type AbMessage struct {
 	OptFloat         *float32           `protobuf:"fixed32,21,opt,name=opt_float,json=optFloat"`
 	RepBytes         [][]byte           `protobuf:"bytes,22,rep,name=rep_bytes,json=repBytes"`
 	OptSelf          *AbMessage         `protobuf:"bytes,23,opt,name=opt_self,json=optSelf"`
+	Second           isAbMessage_Second `protobuf_oneof:"second"`
 	XXX_unrecognized []byte
 }
 
@@ -85,7 +98,7 @@ func (m *AbMessage) String() string        { return "AbMessage" }
 func (*AbMessage) ProtoMessage()           {}
 func (*AbMessage) XXX_MessageName() string { return "verif.ab.AbMessage" }
 func (*AbMessage) XXX_OneofWrappers() []any {
-	return []any{(*AbMessage_OneInt)(nil), (*AbMessage_OneChild)(nil), (*AbMessage_OneString)(nil)}
+	return []any{(*AbMessage_OneInt)(nil), (*AbMessage_OneChild)(nil), (*AbMessage_OneString)(nil), (*AbMessage_TwoInt)(nil), (*AbMessage_TwoString)(nil)}
 }
 
 // proto3-style aberrant message: plain scalars
@@ -140,13 +153,15 @@ var wantAb = []wantField{
 	{name: "rep_child", json: "repChild", num: 14, kind: protoreflect.MessageKind, card: protoreflect.Repeated, msg: "verif.ab.AbChild"},
 	{name: "map_str_int", json: "mapStrInt", num: 15, kind: protoreflect.MessageKind, card: protoreflect.Repeated, mapKV: "string->int32", msg: "verif.ab.AbMessage.MapStrIntEntry"},
 	{name: "map_int_child", json: "mapIntChild", num: 16, kind: protoreflect.MessageKind, card: protoreflect.Repeated, mapKV: "int32->message", msg: "verif.ab.AbMessage.MapIntChildEntry"},
-	{name: "one_int", json: "oneInt", num: 17, kind: protoreflect.Int32Kind, card: protoreflect.Optional, oneof: "union"},
-	{name: "one_child", json: "oneChild", num: 18, kind: protoreflect.MessageKind, card: protoreflect.Optional, oneof: "union", msg: "verif.ab.AbChild"},
-	{name: "one_string", json: "oneString", num: 19, kind: protoreflect.StringKind, card: protoreflect.Optional, oneof: "union"},
+	{name: "one_int", json: "oneInt", num: 17, kind: protoreflect.Int32Kind, card: protoreflect.Optional, oneof: "union#0"},
+	{name: "one_child", json: "oneChild", num: 18, kind: protoreflect.MessageKind, card: protoreflect.Optional, oneof: "union#0", msg: "verif.ab.AbChild"},
+	{name: "one_string", json: "oneString", num: 19, kind: protoreflect.StringKind, card: protoreflect.Optional, oneof: "union#0"},
 	{name: "optgroup", json: "optgroup", num: 20, kind: protoreflect.GroupKind, card: protoreflect.Optional, msg: "verif.ab.AbMessage.OptGroup"},
 	{name: "opt_float", json: "optFloat", num: 21, kind: protoreflect.FloatKind, card: protoreflect.Optional},
 	{name: "rep_bytes", json: "repBytes", num: 22, kind: protoreflect.BytesKind, card: protoreflect.Repeated},
 	{name: "opt_self", json: "optSelf", num: 23, kind: protoreflect.MessageKind, card: protoreflect.Optional, msg: "verif.ab.AbMessage"},
+	{name: "two_int", json: "twoInt", num: 24, kind: protoreflect.Int64Kind, card: protoreflect.Optional, oneof: "second#1"},
+	{name: "two_string", json: "twoString", num: 25, kind: protoreflect.StringKind, card: protoreflect.Optional, oneof: "second#1"},
 }
 
 var wantAb3 = []wantField{
@@ -170,6 +185,7 @@ func fieldRow(fd protoreflect.FieldDescriptor) wantField {
 	}
 	if od := fd.ContainingOneof(); od != nil {
 		w.oneof = string(od.Name())
+		w.oneof += fmt.Sprintf("#%d", od.Index())
 	}
 	if fd.Message() != nil {
 		w.msg = string(fd.Message().FullName())
